@@ -283,7 +283,10 @@ def classify(spec, label, proto, meta, results, outside, hit):
                 hit("outside_text_not_executable")
                 continue
             else:
+                mech = mechanism(label, proto, opts, r) if f["stage"] == "parse" else None
                 cond = f"outside:{spec['stratum']}"
+                if mech is not None:
+                    cond, canon[(sig, mech[0])] = mech
         else:
             mech = mechanism(label, proto, opts, r)
             cond = None
